@@ -1,7 +1,220 @@
 /-
-  Property C02 — theorems about QEModel.C02 (stub; to be filled in).
+  Property C02 — stationary distributions / GTH: theorems about QEModel.C02
+  (the definitions executed by `qedriver_c02`).
+
+  Reading guide (properties.jsonl, C02):
+  * "each row is a probability vector that is invariant under the transition matrix":
+      `gthSolve_stationary`, `gthSolve_invariant` (exact arithmetic, every `n`, every Metzler /
+      stochastic matrix, reducible or not), `scatter_invariant` (restriction to a closed class and
+      scatter into a zero row keep invariance, support inside the class).
+  * "gth_solve gives the same answer for stochastic and generator matrices": `gth_ignores_diag`
+      (for every scalar type, `Float` included), `gthSolve_scale` (rate factor `c > 0`, exact
+      arithmetic), `gthSolve_generator` (`x G = 0`).
+  * "for a reducible matrix, the exact stationary vector of one of its recurrent classes (zero
+      elsewhere)": `gthSolve_stationary` (it is a stationary vector) + `gth_support_partial`
+      (where the support lies); that the support is exactly one recurrent class is tested only.
+  * "stationary_distributions … each row is a probability vector, invariant, supported on its
+      class": `class_row_stationary`, `stationaryDists_row` (closedness of the class enters as a
+      certificate `closedB` that the driver evaluates on every reported class).
+  * "to high relative accuracy in every component": only the structural reason is proved
+      (`gth_subtraction_free`: on non-negative off-diagonals every stored quantity is ≥ 0; the model is
+      typed without `Sub`/`Neg`, so no subtraction exists in it); the rounding analysis is not.
+  * the driver's two-phase program = the recursion the proofs are about: `gthRaw_eq_gthRec`.
+  Not proved here (tested by the correspondence / spec run): support = exactly one recurrent class,
+  number of rows = number of recurrent classes, floating-point accuracy, NumPy copy semantics.
 -/
 import QEModel.C02
+import QEProofs.Lemmas.C02Gth
+import QEProofs.Lemmas.C02Scatter
+import QEProofs.Lemmas.C02Class
 namespace QE.C02
+open Finset
+
+/-! ## the program the driver runs is the recursion the proofs are about -/
+
+/-- For every scalar type (so also for `Float`): reducing completely and then substituting back
+    (`gthRaw`, the code's two loops) yields exactly the list of the structural recursion `gthRec`. -/
+theorem gthRaw_eq_gthRec {α : Type} [Zero α] [One α] [Add α] [Mul α] [Div α] [LE α] [DecidableLE α]
+    (n : ℕ) (hn : 1 ≤ n) (A : M α) : gthRaw n A = gthRec n (n - 1) 0 A :=
+  gthRaw_eq_rec n hn A
+
+section field
+variable {K : Type} [Field K] [LinearOrder K] [IsStrictOrderedRing K]
+
+/-! ## T1 — lift lemma (inductive step), restated on the model's reduction step -/
+
+/-- One elimination step, on the model's own `redStep`/`rowScale`/`dotCol`: if `xs` (as a vector on
+    `(k,n)`) is a left null vector of the generator of the reduced matrix, then `dotCol … :: xs` is a
+    left null vector of the generator of the current matrix on `[k,n)`. Hypothesis `hs` is the
+    code's "no break" condition `scale > 0`. -/
+theorem gth_step_lift_model (n : ℕ) (A : M K) (k : ℕ) (hk : k < n) (hs : 0 < rowScale n A k)
+    (xs : List K) (hlen : xs.length ≤ n - (k+1))
+    (hxs : ∀ j ∈ Ico (k+1) n, ∑ i ∈ Ico (k+1) n, xs.getD (i - (k+1)) 0 *
+        Qm (fun a b => (redStep n A k (rowScale n A k)).get a b) (k+1) n i j = 0) :
+    ∀ j ∈ Ico k n, ∑ i ∈ Ico k n,
+      (dotCol (redStep n A k (rowScale n A k)) k xs :: xs).getD (i - k) 0 *
+        Qm (fun a b => A.get a b) k n i j = 0 :=
+  step_lift_model n A k hk hs xs hlen hxs
+
+/-! ## T1 — `gth_solve` returns a stationary vector (all Metzler matrices, reducible included) -/
+
+/-- **x (A − D) = 0, x ≥ 0, Σ x = 1.** For every `n ≥ 1` and every `n × n` matrix with non-negative
+    off-diagonal entries (stochastic, generator or general Metzler; irreducible or not; whatever the
+    diagonal), the list returned by the model of `gth_solve` has length `n`, is non-negative, sums to
+    one and is a left null vector of `Q = A − diag(off-diagonal row sums)`
+    (`Qm A 0 n i j = A i j` for `i ≠ j`, `= −Σ_{l≠i} A i l` for `i = j`). -/
+theorem gthSolve_stationary (n : ℕ) (hn : 1 ≤ n) (A : M K) (hA : OffNonneg n A) :
+    (gthSolve n A).length = n
+    ∧ (∀ i, 0 ≤ (gthSolve n A).getD i 0)
+    ∧ ∑ i ∈ range n, (gthSolve n A).getD i 0 = 1
+    ∧ ∀ j, j < n → ∑ i ∈ range n, (gthSolve n A).getD i 0 * Qm (fun a b => A.get a b) 0 n i j = 0 :=
+  gthSolve_stationary_aux n hn A hA
+
+/-- **x P = x** for a (row-)stochastic matrix: rows sum to one, entries off the diagonal ≥ 0. -/
+theorem gthSolve_invariant (n : ℕ) (hn : 1 ≤ n) (P : M K) (hP : OffNonneg n P)
+    (hrow : ∀ i, i < n → ∑ j ∈ range n, P.get i j = 1) :
+    ∀ j, j < n → ∑ i ∈ range n, (gthSolve n P).getD i 0 * P.get i j = (gthSolve n P).getD j 0 :=
+  gthSolve_invariant_aux n hn P hP hrow
+
+/-- **x G = 0** for a generator (rate) matrix: off-diagonals ≥ 0, rows summing to zero. -/
+theorem gthSolve_generator (n : ℕ) (hn : 1 ≤ n) (G : M K) (hG : OffNonneg n G)
+    (hrow : ∀ i, i < n → ∑ j ∈ range n, G.get i j = 0) :
+    ∀ j, j < n → ∑ i ∈ range n, (gthSolve n G).getD i 0 * G.get i j = 0 :=
+  gthSolve_generator_aux n hn G hG hrow
+
+/-- **Same answer for a stochastic matrix and its generators.** If the off-diagonal entries of `B`
+    are `c` times those of `A` for some `c > 0` (e.g. `B = c (P − I)`, `A = P`; the diagonals are
+    unconstrained), the two results are equal — in exact arithmetic, reducible matrices included. -/
+theorem gthSolve_scale (n : ℕ) (hn : 1 ≤ n) (c : K) (hc : 0 < c) (A B : M K)
+    (h : ∀ i j, i < n → j < n → i ≠ j → B.get i j = c * A.get i j) :
+    gthSolve n B = gthSolve n A :=
+  gthSolve_scale_aux n hn c hc A B h
+
+/-! ## T1 — only the off-diagonal entries are read -/
+
+/-- `gth_solve` never reads the diagonal: two matrices with the same off-diagonal entries give the
+    same result, for every scalar type (`Float` included). In particular a stochastic matrix `P` and
+    the generator `P − I` give identical answers. -/
+theorem gth_ignores_diag {α : Type} [Zero α] [One α] [Add α] [Mul α] [Div α] [LE α] [DecidableLE α]
+    (n : ℕ) (hn : 1 ≤ n) (A B : M α)
+    (h : ∀ i j, i < n → j < n → i ≠ j → A.get i j = B.get i j) :
+    gthSolve n A = gthSolve n B :=
+  gthSolve_congr_offdiag n hn A B h
+
+/-! ## T1 — no subtraction, nothing negative -/
+
+/-- On non-negative off-diagonals every matrix the reduction stores keeps non-negative
+    off-diagonal entries (whatever the number of steps and wherever it breaks). Together with the
+    typing of the model (`gthSolve` is defined from `0 1 + * / ≤` only: there is no `Sub`/`Neg`
+    instance it could call) this is the "GTH performs no subtraction" fact. -/
+theorem gth_subtraction_free (n : ℕ) (A : M K) (hA : OffNonneg n A) (fuel k : ℕ) :
+    OffNonneg n (reduce n fuel k A).1 :=
+  reduce_offNonneg n fuel k A hA
+
+/-! ## T2 (partial) — where the support lies on a reducible matrix -/
+
+/-- With `m` the effective size computed by the reduction (`n`, or `k+1` at the first pivot `k` whose
+    active row sum is `≤ 0`): `1 ≤ m ≤ n`, the result is positive at index `m-1` and zero at every
+    index `≥ m`.
+    *Partial*: the property says the support is exactly one recurrent class of the matrix; what is
+    missing is that (i) the indices `< m-1` with a non-zero entry are exactly the states communicating
+    with `m-1`, and (ii) that this set is a recurrent class of the *original* matrix (it needs the
+    reachability reading of the reduced matrices). Both are checked on every case by the spec run. -/
+theorem gth_support_partial (n : ℕ) (hn : 1 ≤ n) (A : M K) (hA : OffNonneg n A) :
+    1 ≤ (reduce n (n - 1) 0 A).2 ∧ (reduce n (n - 1) 0 A).2 ≤ n
+    ∧ 0 < (gthSolve n A).getD ((reduce n (n - 1) 0 A).2 - 1) 0
+    ∧ ∀ i, (reduce n (n - 1) 0 A).2 ≤ i → (gthSolve n A).getD i 0 = 0 :=
+  gth_support_aux n hn A hA
+
+/-! ## T1 — every reported row is a stationary distribution of the whole chain -/
+
+/-- For a non-empty duplicate-free list `C` of states that is closed under the stochastic matrix `P`
+    (entries ≥ 0, rows summing to one), the row `scatter n C (gthSolve |C| P[C,C])` computed by
+    `_compute_stationary` is invariant under `P`, non-negative, sums to one and vanishes outside `C`. -/
+theorem class_row_stationary (n : ℕ) (P : M K) (C : List ℕ)
+    (hnd : C.Nodup) (hC : ∀ c ∈ C, c < n) (hne : C ≠ [])
+    (hnn : ∀ i j, i < n → j < n → 0 ≤ P.get i j)
+    (hrow : ∀ i, i < n → ∑ j ∈ range n, P.get i j = 1)
+    (hclosed : ∀ c ∈ C, ∀ j, j < n → j ∉ C → P.get c j = 0) :
+    (∀ j, j < n → ∑ i ∈ range n,
+        (scatter n C (gthSolve C.length (restrict P C))).getD i 0 * P.get i j
+          = (scatter n C (gthSolve C.length (restrict P C))).getD j 0)
+    ∧ (∀ i, 0 ≤ (scatter n C (gthSolve C.length (restrict P C))).getD i 0)
+    ∧ ∑ i ∈ range n, (scatter n C (gthSolve C.length (restrict P C))).getD i 0 = 1
+    ∧ (∀ i, i ∉ C → (scatter n C (gthSolve C.length (restrict P C))).getD i 0 = 0) :=
+  class_row_stationary_aux n P C hnd hC hne hnn hrow hclosed
+
+/-- **`stationaryDists`, row by row.** Every pair `(C, r)` the model of
+    `MarkovChain.stationary_distributions` returns for a stochastic matrix, and for which the
+    closedness certificate `closedB` (evaluated by the driver on every reported class) holds, is a
+    stationary distribution: `r P = r`, `r ≥ 0`, `Σ r = 1`, `r = 0` outside `C`.
+    (That `C` is duplicate-free, non-empty and inside `[0,n)` is proved, not assumed. That the classes
+    are exactly the recurrent classes is not proved here — the correspondence compares them with the
+    code's and the spec run with an independent closure computation.) -/
+theorem stationaryDists_row (n : ℕ) (P : M K)
+    (hnn : ∀ i j, i < n → j < n → 0 ≤ P.get i j)
+    (hrow : ∀ i, i < n → ∑ j ∈ range n, P.get i j = 1)
+    (Cr : List ℕ × List K) (hmem : Cr ∈ stationaryDists n P) (hcert : closedB n P Cr.1 = true) :
+    (∀ j, j < n → ∑ i ∈ range n, Cr.2.getD i 0 * P.get i j = Cr.2.getD j 0)
+    ∧ (∀ i, 0 ≤ Cr.2.getD i 0)
+    ∧ ∑ i ∈ range n, Cr.2.getD i 0 = 1
+    ∧ (∀ i, i ∉ Cr.1 → Cr.2.getD i 0 = 0) := by
+  unfold stationaryDists at hmem
+  obtain ⟨C, hCmem, rfl⟩ := List.mem_map.1 hmem
+  obtain ⟨hnd, hC, hne⟩ := recClasses_mem n _ C hCmem
+  exact class_row_stationary_aux n P C hnd hC hne hnn hrow (closedB_sound n P C hcert hnn hC)
+
+end field
+
+section scatter
+variable {K : Type} [Field K]
+
+/-! ## T1 — restriction to a closed class and scatter -/
+
+/-- If `C` (distinct states `< n`) is closed under `P` (no mass leaves `C`) and `x` is invariant
+    for the restricted matrix `P[C,C]`, then the scattered row is invariant under `P` and vanishes
+    outside `C` (core.py:398-408). -/
+theorem scatter_invariant (n : ℕ) (P : M K) (C : List ℕ) (x : List K)
+    (hnd : C.Nodup) (hC : ∀ c ∈ C, c < n)
+    (hclosed : ∀ c ∈ C, ∀ j, j < n → j ∉ C → P.get c j = 0)
+    (hx : ∀ b, b < C.length →
+      ∑ a ∈ range C.length, x.getD a 0 * (restrict P C).get a b = x.getD b 0) :
+    (∀ j, j < n → ∑ i ∈ range n, (scatter n C x).getD i 0 * P.get i j = (scatter n C x).getD j 0)
+    ∧ (∀ i, i ∉ C → (scatter n C x).getD i 0 = 0)
+    ∧ (∀ a, a < C.length → (scatter n C x).getD (C.getD a 0) 0 = x.getD a 0) :=
+  scatter_invariant_aux n P C x hnd hC hclosed hx
+
+end scatter
+
+/-! ## non-vacuity: concrete instances of the hypotheses, and the values the driver prints -/
+
+/-- a 3-state irreducible chain -/
+def exP : M ℚ := M.ofRows [[1/2, 1/4, 1/4], [1/2, 0, 1/2], [1/4, 1/2, 1/4]]
+
+/-- a reducible chain: 0 absorbing, 1 transient, {2,3} recurrent -/
+def exR : M ℚ := M.ofRows [[1, 0, 0, 0], [1/2, 0, 1/2, 0], [0, 0, 1/2, 1/2], [0, 0, 1/4, 3/4]]
+
+example : OffNonneg 3 exP := by
+  intro i j hi hj _
+  have : ∀ i < 3, ∀ j < 3, (0 : ℚ) ≤ exP.get i j := by decide +kernel
+  exact this i hi j hj
+example : ∀ i, i < 3 → ∑ j ∈ range 3, exP.get i j = 1 := by decide +kernel
+example : gthSolve 3 exP = [8/19, 5/19, 6/19] := by decide +kernel
+example : gthSolve 4 exR = [1, 0, 0, 0] := by decide +kernel      -- break at k = 0
+example : (reduce 4 3 0 exR).2 = 1 := by decide +kernel
+example : 0 < rowScale 3 exP 0 := by decide +kernel
+/-- generator `3 (P − I)` of `exP`: rows sum to zero, same answer -/
+def exG : M ℚ := M.ofRows [[-3/2, 3/4, 3/4], [3/2, -3, 3/2], [3/4, 3/2, -9/4]]
+example : ∀ i, i < 3 → ∑ j ∈ range 3, exG.get i j = 0 := by decide +kernel
+example : ∀ i < 3, ∀ j < 3, i ≠ j → exG.get i j = 3 * exP.get i j := by decide +kernel
+example : gthSolve 3 exG = [8/19, 5/19, 6/19] := by decide +kernel
+example : (stationaryDists 4 exR).map (·.2) = [[1, 0, 0, 0], [0, 0, 1/3, 2/3]] := by decide +kernel
+example : (stationaryDists 4 exR).all (fun Cr => closedB 4 exR Cr.1) = true := by decide +kernel
+example : ∀ i < 4, ∀ j < 4, (0 : ℚ) ≤ exR.get i j := by decide +kernel
+example : ∀ i, i < 4 → ∑ j ∈ range 4, exR.get i j = 1 := by decide +kernel
+/-- hypotheses of `scatter_invariant` on the class `{2,3}` of `exR` -/
+example : ([2, 3] : List ℕ).Nodup ∧ (∀ c ∈ ([2, 3] : List ℕ), c < 4)
+    ∧ (∀ c ∈ ([2, 3] : List ℕ), ∀ j, j < 4 → j ∉ ([2, 3] : List ℕ) → exR.get c j = 0) := by
+  decide +kernel
 
 end QE.C02
